@@ -949,6 +949,17 @@ def rule_frob_dispatch(prop, repo):
                     if vals is not None and vals:
                         res_ = [fold_int(bind_term(pw, {("param", k): ("const", {"ty": "usize", "int": v}) for k, v in env.items()})) for env in vals]
                         ok = all(r_ is not None and r_ in impl[d] for r_ in res_)
+                if not ok and pw[0] != "const":
+                    # a power read out of a table by an interpreter loop: the powers this call site is reached with when the
+                    # final-exponentiation entry points are executed in the exponent domain (the table is a literal of the
+                    # program, so the execution is concrete in it) — provided nothing else can call this function
+                    from .expo import observed_frobenius_powers
+                    sites, visited = observed_frobenius_powers(repo)
+                    sp = t.get("span") or {}
+                    got = sites.get((b.rec["path"], sp.get("line"), sp.get("col")))
+                    callers_ = {cb_.rec["path"].split("::{closure")[0] for cb_ in F.fn_bodies() for _, t2 in cb_.calls() if (t2.get("fn") or {}).get("res_def") == b.rec["path"]}
+                    if got and None not in got and all(v in impl[d] for v in got) and callers_ and callers_ <= visited and not F.is_exported(b.rec["path"]):
+                        ok = True
                 if pw[0] == "agg" and isinstance(pw[1], str) and not pw[3] and pw[1] in F.adts:
                     # an enum selector: every variant either has an arm or the match is exhaustive by construction (rustc
                     # checked it); an arm that diverges shows up when the body is followed with that variant
